@@ -269,6 +269,25 @@ def mk_tf_sketchy(refresh):
 
 
 def tasks(tier):
+  return _tasks(tier) + _boundary_tasks()
+
+
+def _boundary_tasks():
+  """'Updates before the start step are exactly the grafting optimizer's momentum update and from that step on use the
+  preconditioners': the real _transform_grad against the documented formula with the step counter, the start step and BOTH
+  refresh intervals symbolic (shared with C02 / C05)."""
+  from contracts import c02
+  from contracts import c05
+  ts = []
+  for graft in ("SGD", "RMSPROP"):
+    ts.append(Task(f"warm-up boundary: graft direction/norm switch[{graft}]", c05.mk_ds(graft, False, False, False)))
+  cfgs = [c for c in D.all_cfgs() if c.graft in ("SGD", "ADAGRAD") and not c.skip and c.wd_mode == "none" and not c.lr_sched]
+  for c in cfgs[:8]:
+    ts.append(Task(f"warm-up boundary: full update formula[{c.name()}]", c02.mk_transform(c)))
+  return ts
+
+
+def _tasks(tier):
   from contracts import c02
   ts = [Task("precond cadence[interval symbolic]", mk_precond_cadence("sym")),
         Task("precond cadence[interval=1]", mk_precond_cadence("one")),
